@@ -27,7 +27,7 @@ import ChibiVerif.Lemmas.C20Depth
 
 namespace ChibiVerif.Props.C20
 open ChibiVerif ChibiVerif.Codegen ChibiVerif.Effect ChibiVerif.Asm ChibiVerif.Ast
-open ChibiVerif.Lemmas.C20
+open ChibiVerif.Lemmas.C20 ChibiVerif.C20Scope
 
 /-- +1 on the x87 stack iff the node's type is long double -/
 def x87Of (n : Node) : Int := if isLD n.ty? then 1 else 0
